@@ -347,6 +347,7 @@ func TestC28(t *testing.T) {
 					m.judge(tx, pre, post, res.Code, res.Codespace, balPre, balPost)
 				}
 				n.Commit(n.EndBlock())
+				historicalAppLookup(rt, c, n)
 			}
 		})
 }
